@@ -11,6 +11,8 @@ import (
 	. "vh/lib"
 
 	"github.com/cnotch/ipchub/av/codec"
+	"github.com/cnotch/ipchub/av/codec/h264"
+	"github.com/cnotch/ipchub/av/codec/hevc"
 	"github.com/cnotch/ipchub/av/format/amf"
 	"github.com/cnotch/ipchub/av/format/flv"
 	"github.com/cnotch/ipchub/media/cache"
@@ -78,6 +80,15 @@ func c08Metas(c Val) (*codec.VideoMeta, *codec.AudioMeta) {
 		FrameRate: math.Float64frombits(c08u64(c.At(7))), DataRate: math.Float64frombits(c08u64(c.At(8)))}
 	if c.At(0).Bool() {
 		vm.Codec = "H265"
+	}
+	if c.At(16).Bool() {
+		// the stream's meta data come from the SPS, as sdp.parseMeta / the depacketisers fill them
+		vm.Width, vm.Height, vm.FrameRate = 0, 0, 0
+		if vm.Codec == "H265" {
+			hevc.MetadataIsReady(vm)
+		} else {
+			h264.MetadataIsReady(vm)
+		}
 	}
 	am := &codec.AudioMeta{}
 	if c.At(9).Bool() {
@@ -253,6 +264,11 @@ func init() {
 	commands["C08fan"] = c08Fan
 	commands["hvcc"] = func(c Val) Val {
 		rec := flv.NewHEVCDecoderConfigurationRecord(c.At(0).Bytes(), c.At(1).Bytes(), c.At(2).Bytes())
+		b, _ := rec.Marshal()
+		return B(b[1:22])
+	}
+	commands["hvcc5"] = func(c Val) Val {
+		rec := flv.NewHEVCDecoderConfigurationRecord(c.At(2).Bytes(), c.At(3).Bytes(), c.At(4).Bytes())
 		b, _ := rec.Marshal()
 		return B(b[1:22])
 	}
